@@ -1047,7 +1047,7 @@ pub fn run(p: &Prepared, chunks: &[&[u8]], do_end: bool) -> RunResult {
     run_opts(p, chunks, do_end, false)
 }
 
-/// `after_error_probe`: after a failing call, additionally issue one more `write(b"x")` and
+/// `after_error_probe`: after a failing call, additionally issue `write(b"")` and `write(b"x")` and
 /// record its result (must be a panic, must not touch the sink) — used by C12.
 pub fn run_opts(p: &Prepared, chunks: &[&[u8]], do_end: bool, after_error_probe: bool) -> RunResult {
     let _busy = busy(Some((p, chunks)));
@@ -1098,13 +1098,16 @@ pub fn run_opts(p: &Prepared, chunks: &[&[u8]], do_end: bool, after_error_probe:
     }
     if failed {
         if after_error_probe && !matches!(rr.results.last(), Some(CallRes::Panic(_))) {
-            let r = catch_unwind(AssertUnwindSafe(|| rewriter.write(b"x")));
-            let res = match r {
-                Ok(r) => to_res(r),
-                Err(e) => CallRes::Panic(panic_msg(e)),
-            };
-            snapshot(&mut rr);
-            rr.results.push(res);
+            // two probes: an empty write and a non-empty one (both must panic)
+            for probe in [&b""[..], &b"x"[..]] {
+                let r = catch_unwind(AssertUnwindSafe(|| rewriter.write(probe)));
+                let res = match r {
+                    Ok(r) => to_res(r),
+                    Err(e) => CallRes::Panic(panic_msg(e)),
+                };
+                snapshot(&mut rr);
+                rr.results.push(res);
+            }
         }
         // dropping a poisoned rewriter must not panic either
         let _ = catch_unwind(AssertUnwindSafe(move || drop(rewriter)));
